@@ -12,10 +12,10 @@ R7  abstract interpretation of the whole session for every role configuration: t
     the negation of the same value}; None / None / zeros on a passed-out board; one record per
     board in list order; the four names are the seated team names; identical under every
     scheduling policy of the same configuration.
-R8  provenance inside JsonLogWriter.write: every key of the record is computed from the
-    parameter of the same role (dealer <- dealer, vulnerability <- contract.vul, declarer <-
-    contract.declarer guarded by is_passed_out, NS <- scores[Pair.NS], ...).
-Not decided: the JSON text itself (writer <-> schema <-> reader agreement is C12; scoring
+R8  what JsonLogWriter.write is handed is what the document holds: board sequences with pairwise different
+    parameter values are written through one writer (its real code folded), the text parsed and read back
+    through the real reader, every field compared by value (whole-document rule of sa/rules/jsonfile.py).
+Not decided here: schema conformance of the JSON text (C12); scoring
 arithmetic is C07/C16; legality of the auction and play is C01-C06)."""
 from __future__ import annotations
 
@@ -59,30 +59,13 @@ def run(chk):
     # ---- R5 ---------------------------------------------------------------------------------------------------------------
     discipline(chk, rule='C08.R5')
 
-    # ---- R8 ---------------------------------------------------------------------------------------------------------------
-    ci, fn = repo.method('JsonLogWriter', 'write', 'C08.R8')
-    w, q = loc(repo, 'JsonLogWriter', 'write', 'C08.R8')
-    params = {a.arg for a in fn.args.args} - {'self'}
-    dicts = [n for n in ast.walk(fn) if isinstance(n, ast.Assign) and isinstance(n.value, ast.Dict) and len(n.value.keys) >= 8]
-    if len(dicts) != 1:
-        raise AnalysisError('C08.R8', q, f'{len(dicts)} record dict literals found, expected 1')
-    rec = flatten(dicts[0].value)
-    recname = dicts[0].targets[0].id if isinstance(dicts[0].targets[0], ast.Name) else None
-    # the dict written is the dict built
-    wc = [n for n in ast.walk(fn) if isinstance(n, ast.Call) and ast.unparse(n.func).endswith('_write_content')]
-    chk.require(len(wc) == 1 and wc[0].args and ast.unparse(wc[0].args[0]) == recname, 'C08.R8', w, q, 'record handed to _write_content',
-                'the record built is the record written', f'_write_content is given `{ast.unparse(wc[0].args[0]) if wc and wc[0].args else None}`, the record is `{recname}`')
-    for key, (need, frags) in PROVENANCE.items():
-        v = rec.get(key)
-        if v is None:
-            chk.fail('C08.R8', w, q, f'log key {key} missing', f'the record has no key `{key}`')
-            continue
-        used = {n.id for n in ast.walk(v) if isinstance(n, ast.Name) and n.id in params}
-        txt = ast.unparse(v)
-        ok = used == need and all(f in txt for f in frags)
-        chk.require(ok, 'C08.R8', repo.where(ci.module, v), q, f'log key {key}', f'`{key}` is computed from {sorted(need)}' + (f' via {list(frags)}' if frags else ''),
-                    f'`{key}` is computed as `{txt[:90]}`: it must depend on exactly {sorted(need)}' + (f' through {list(frags)}' if frags else ''))
-    chk.floor('C08.R8', 'record keys', len(rec), len(PROVENANCE))
+    # ---- R8: what the log writer is handed is what the document holds -------------------------------------------------------
+    # (decided on whole documents: sequences of boards with pairwise different values in every parameter are written through one
+    # JsonLogWriter by folding its real code, the text is parsed as JSON and read back through the real reader; every field must come
+    # back equal to the value handed in - sa/rules/jsonfile.py.  A key computed from the wrong parameter, a stale value kept from the
+    # previous board, a value normalised on the way are all differences there, whatever the code looks like.)
+    from .jsonfile import log_rule
+    log_rule(chk, 'C08.R8')
 
     # ---- R7 ---------------------------------------------------------------------------------------------------------------
     res = S.run_family(chk, ['log'])
